@@ -234,13 +234,13 @@ func (w *Writer) WriteRecord(framecount int64, timestamp int64, data []uint16) e
 		return fmt.Errorf("ljh incorrect number of samples, have %v, want %v", len(data), w.Samples)
 	}
 	subframeCount := framecount*int64(w.SubframeDivisions) + int64(w.SubframeOffset)
-	if _, err := w.writer.Write(getbytes.FromInt64(subframeCount)); err != nil {
-		return err
-	}
-	if _, err := w.writer.Write(getbytes.FromInt64(timestamp)); err != nil {
-		return err
-	}
-	if _, err := w.writer.Write(getbytes.FromSliceUint16(data)); err != nil {
+	// Assemble the whole record in one fresh buffer and hand it to the (non-blocking) writer in a
+	// single call, so that a record is either queued completely or rejected completely.
+	buf := make([]byte, 0, 16+2*len(data))
+	buf = append(buf, getbytes.FromInt64(subframeCount)...)
+	buf = append(buf, getbytes.FromInt64(timestamp)...)
+	buf = append(buf, getbytes.FromSliceUint16(data)...)
+	if _, err := w.writer.Write(buf); err != nil {
 		return err
 	}
 	w.RecordsWritten++
@@ -319,19 +319,14 @@ func (w *Writer3) WriteHeader() error {
 // timestamp is posix timestamp in microseconds since epoch
 // data can be variable length
 func (w *Writer3) WriteRecord(firstRisingSample int32, framecount int64, timestamp int64, data []uint16) error {
-	if _, err := w.writer.Write(getbytes.FromInt32(int32(len(data)))); err != nil {
-		return err
-	}
-	if _, err := w.writer.Write(getbytes.FromInt32(firstRisingSample)); err != nil {
-		return err
-	}
-	if _, err := w.writer.Write(getbytes.FromInt64(framecount)); err != nil {
-		return err
-	}
-	if _, err := w.writer.Write(getbytes.FromInt64(timestamp)); err != nil {
-		return err
-	}
-	if _, err := w.writer.Write(getbytes.FromSliceUint16(data)); err != nil {
+	// One fresh buffer and a single Write per record: all or nothing (see Writer.WriteRecord).
+	buf := make([]byte, 0, 24+2*len(data))
+	buf = append(buf, getbytes.FromInt32(int32(len(data)))...)
+	buf = append(buf, getbytes.FromInt32(firstRisingSample)...)
+	buf = append(buf, getbytes.FromInt64(framecount)...)
+	buf = append(buf, getbytes.FromInt64(timestamp)...)
+	buf = append(buf, getbytes.FromSliceUint16(data)...)
+	if _, err := w.writer.Write(buf); err != nil {
 		return err
 	}
 	w.RecordsWritten++
